@@ -4,6 +4,7 @@ input exercises it; the correspondence that runs afterwards is the search for a 
 import json, os, subprocess
 
 import vcheck
+import genprops
 
 # fact -> (expected value, the model definition / LTS transition / theorem it justifies)
 EXPECT = {
@@ -94,6 +95,13 @@ def make_step(names):
                 want = STAMP_SUFFIX
             else:
                 ok = have == want
+            if not ok:
+                mods = genprops.excused(ctx, n)
+                if mods:
+                    ctx.obligations.append(("fact " + n, True, "source text changed (now %r); subsumed: the definition regenerated "
+                                            "from the source is proved equal to the model (Gnmi.GenProps.%s)" % (have, ", ".join(mods))))
+                    vcheck.log("  fact %s: text changed, subsumed by the discharged obligations of %s (harmless rewrite)" % (n, ", ".join(mods)))
+                    continue
             ctx.obligations.append(("fact " + n, ok, where if ok else "expected %r, source has %r" % (want, have)))
             if not ok:
                 bad += 1
